@@ -60,7 +60,7 @@ func main() {
 	for _, s := range []struct {
 		name string
 		run  func()
-	}{{"transform", runTransform}, {"sample", runSample}, {"direct", runNudgeDirect}, {"sweep", runNudgeSample}, {"twisted", runTwisted}} {
+	}{{"transform", runTransform}, {"sample", runSample}, {"direct", runNudgeDirect}, {"sweep", runNudgeSample}, {"slanted", runNudgeAffine}, {"twisted", runTwisted}} {
 		if only == "" || strings.Contains(only, s.name) {
 			s.run()
 		} else {
